@@ -42,6 +42,9 @@ type c07Method struct {
 }
 
 func runC07(w *World, r *Report) {
+	hrCollectedActionsOnlyGrow(w, r, "R5")
+	hrEnsureCopies(w, r, "R4")
+	hrActionAvailable(w, r, "R5")
 	hrParseHeaders(w, r, "R5")
 	hrDumpHeaders(w, r, "R6")
 	pa := w.ByPath[pkgActions]
